@@ -198,7 +198,8 @@ func (d *AuthGrid) Cases(string) []GridCase {
 			sets = []string{"ALL"}
 		}
 		if r.Kind == "admin" {
-			sets = append(append([]string{}, sets...), "ADM") // the administrator of the enclosing name, alone
+			// the administrator of the (enclosing) name: alone, and together with the second key the row names
+			sets = append(append([]string{}, sets...), "ADM", "ADM+K2")
 		}
 		if r.Kind != "safe" && namesTwoKeys(r) {
 			sets = append(append([]string{}, sets...), "K1", "K2") // each of the two named keys alone
@@ -538,6 +539,9 @@ func authTable() []authRow {
 		{"nns", "register", func(d *AuthGrid, w *World) []any {
 			return []any{"s.ww.com", d.x.Hash, "e@x.y", int64(1), int64(2), int64(100000), int64(4)}
 		}, [][]string{{"U", "X"}, {"V", "X"}}, ""},
+		// appointing or dismissing an administrator is the owner's business, not the current administrator's
+		{"nns", "setAdmin", func(d *AuthGrid, w *World) []any { return []any{"ww.com", d.x.Hash} }, k("U", "X"), "admin"},
+		{"nns", "setAdmin", func(d *AuthGrid, w *World) []any { return []any{"ww.com", nil} }, k("U"), "admin"},
 		{"nns", "registerTLD", func(d *AuthGrid, w *World) []any {
 			return []any{"org", "e@x.y", int64(1), int64(2), int64(100000), int64(4)}
 		}, cm, ""},
